@@ -277,7 +277,7 @@ void Run::H::operator()(boost::system::error_code const& ec, tcp::socket peer) c
 // ---------------------------------------------------------------------------
 // scenario catalogue
 
-constexpr int NSCN = 23;
+constexpr int NSCN = 24;
 constexpr long long FAR_MS = 5000; // scenario 22: expiry of the timer nobody waits on, far beyond everything else
 
 Topology topo_for(int id)
@@ -290,6 +290,7 @@ Topology topo_for(int id)
 	if (id == 19) { t.net[{0, 1}] = {QSpec{400000, 5000, 0}, QSpec{20000, 10000, 3100}}; } // two-segment bottleneck, 75 ms per segment: bursts overflow it
 	if (id == 18) { t.net[{0, 1}] = {QSpec{800000, 2000, 0}, QSpec{300000, 3000, 0}}; t.nodes[0].qout = {QSpec{1000000, 1000, 0}}; }
 	if (id == 17) t.net[{0, 1}] = {QSpec{200000, 10000, 20000}};
+	if (id == 23) { t.nodes[0].fam = 2; t.nodes[1].fam = 2; } // dual-stack: connects across address families
 	DnsEntry a; a.lat_us = 30000; a.addrs = {sa::ip::make_address_v4("10.9.0.1")}; t.dns["a.test"] = a;
 	DnsEntry b; b.lat_us = 10000; b.addrs = {sa::ip::make_address_v4("10.9.0.2"), sa::ip::make_address_v6("2001:db8::2")}; t.dns["b.test"] = b;
 	DnsEntry e; e.lat_us = 20000; e.err = 1; t.dns["nx.test"] = e;
@@ -495,6 +496,21 @@ std::vector<int> build(Run& R, int id, int param, bool with_control)
 			R.at(5, [r, t4, alive]() { if (alive(t4)) r->objs[std::size_t(t4)].tm->cancel(); });
 			R.at(10, [r, t4, alive]() { if (alive(t4) && r->outstanding_on(t4).empty()) r->timer_wait_noarm(t4); });
 			targets = {t0, t1, t2, t4};
+			break;
+		}
+		case 23:
+		{
+			// connects that fail without a packet being sent, started from inside a running handler (where an executor's
+			// dispatch() would run the completion inline): an IPv4-bound socket dialling IPv6 and vice versa, and a dead endpoint
+			int a4 = R.add(K_TCP, 0, "v4-bound"), a6 = R.add(K_TCP, 0, "v6-bound"), dead = R.add(K_TCP, 0, "to-nobody");
+			R.objs[std::size_t(a4)].ts->open(tcp::v4(), ec); R.objs[std::size_t(a4)].ts->bind(tcp::endpoint(w.addr(0, 0), 7201), ec);
+			R.objs[std::size_t(a6)].ts->open(tcp::v6(), ec); R.objs[std::size_t(a6)].ts->bind(tcp::endpoint(w.addr(0, 1), 7202), ec);
+			World* wp = &w;
+			R.at(5, [r, a4, wp, alive]() { if (alive(a4)) r->tcp_connect(a4, tcp::endpoint(wp->addr(1, 1), 7000)); });
+			R.at(6, [r, a6, wp, alive]() { if (alive(a6)) r->tcp_connect(a6, tcp::endpoint(wp->addr(1, 0), 7000)); });
+			R.at(7, [r, dead, wp, alive]() { if (alive(dead)) r->tcp_connect(dead, tcp::endpoint(wp->addr(1, 0), 7999)); });
+			int t1 = R.add(K_TIMER, 1, "clutter"); R.timer_wait(t1, 30);
+			targets = {a4, a6, dead};
 			break;
 		}
 		case 13: case 14:
